@@ -52,6 +52,7 @@ type Run struct {
 	start      time.Time
 	curCase    string
 	exhaustive map[string]bool
+	lastFlush  time.Time
 }
 
 func envInt(name string, def int64) int64 {
@@ -279,6 +280,13 @@ func sanitize(s string) string {
 	return out
 }
 
+func writeAtomic(path string, b []byte) {
+	tmp := path + ".tmp"
+	if err := os.WriteFile(tmp, b, 0o644); err == nil {
+		_ = os.Rename(tmp, path)
+	}
+}
+
 // Finish writes shard-<i>.json and shard-<i>.hashes into OutDir.
 func (r *Run) Finish() {
 	r.mu.Lock()
@@ -287,7 +295,19 @@ func (r *Run) Finish() {
 		fmt.Fprintln(r.jw, "finished")
 		r.jw.Flush()
 		r.journal.Close()
+		r.jw = nil
 	}
+	r.flushLocked()
+}
+
+// Flush writes the result files without ending the run (fuzz workers are killed by the engine, never finished).
+func (r *Run) Flush() {
+	r.mu.Lock()
+	defer r.mu.Unlock()
+	r.flushLocked()
+}
+
+func (r *Run) flushLocked() {
 	hs := make([]uint64, 0, len(r.hashes))
 	for k := range r.hashes {
 		hs = append(hs, k)
@@ -297,7 +317,7 @@ func (r *Run) Finish() {
 	for i, k := range hs {
 		binary.LittleEndian.PutUint64(hb[8*i:], k)
 	}
-	_ = os.WriteFile(filepath.Join(r.OutDir, fmt.Sprintf("shard-%d.hashes", r.FileTag)), hb, 0o644)
+	writeAtomic(filepath.Join(r.OutDir, fmt.Sprintf("shard-%d.hashes", r.FileTag)), hb)
 	ex := []string{}
 	for k := range r.exhaustive {
 		ex = append(ex, k)
@@ -318,7 +338,7 @@ func (r *Run) Finish() {
 		b, _ = json.Marshal(map[string]interface{}{"property": r.Prop, "shard": r.Shard, "marshal_error": err.Error(),
 			"evaluations": r.evals, "violations": r.violations})
 	}
-	_ = os.WriteFile(filepath.Join(r.OutDir, fmt.Sprintf("shard-%d.json", r.FileTag)), b, 0o644)
+	writeAtomic(filepath.Join(r.OutDir, fmt.Sprintf("shard-%d.json", r.FileTag)), b)
 }
 
 // DeadlockVerdict turns a node-internal mutex deadlock (see bubble.WatchDeadlocks) into a violation of this run.
